@@ -84,13 +84,24 @@ func lookupLit(l Lit) (*ssa.Lookup, bool, bool) {
 // steps are followed: conversions, phi merges, loads of locals, whole-slice
 // expressions. Arithmetic, len, and calls are not crossed (unlike dependsOn).
 func flowsFrom(v ssa.Value, pred func(ssa.Value) bool) bool {
-	seen := map[ssa.Value]bool{}
-	var walk func(ssa.Value) bool
-	walk = func(x ssa.Value) bool {
-		if x == nil || seen[x] {
+	type key struct {
+		v   ssa.Value
+		top ssa.CallInstruction
+	}
+	seen := map[key]bool{}
+	var walk func(ssa.Value, []ssa.CallInstruction, int) bool
+	walk = func(x ssa.Value, stack []ssa.CallInstruction, up int) bool {
+		if x == nil {
 			return false
 		}
-		seen[x] = true
+		var top ssa.CallInstruction
+		if len(stack) > 0 {
+			top = stack[len(stack)-1]
+		}
+		if seen[key{x, top}] {
+			return false
+		}
+		seen[key{x, top}] = true
 		x = unwrap(x)
 		if pred(x) {
 			return true
@@ -98,7 +109,7 @@ func flowsFrom(v ssa.Value, pred func(ssa.Value) bool) bool {
 		switch t := x.(type) {
 		case *ssa.Phi:
 			for _, e := range t.Edges {
-				if walk(e) {
+				if walk(e, stack, up) {
 					return true
 				}
 			}
@@ -115,7 +126,7 @@ func flowsFrom(v ssa.Value, pred func(ssa.Value) bool) bool {
 				}
 				if al != nil {
 					for _, val := range capturedStores(al) {
-						if walk(val) {
+						if walk(val, stack, up) {
 							return true
 						}
 					}
@@ -123,16 +134,51 @@ func flowsFrom(v ssa.Value, pred func(ssa.Value) bool) bool {
 			}
 		case *ssa.FreeVar:
 			if b := freeVarBinding(t); b != nil {
-				return walk(b)
+				return walk(b, stack, up)
 			}
 		case *ssa.Slice:
 			if t.Low == nil && t.High == nil {
-				return walk(t.X)
+				return walk(t.X, stack, up)
+			}
+		case *ssa.Parameter:
+			// the value is whatever the caller passed: the call we descended through, or
+			// (unknown context) every static call site in the module
+			idx := paramIndex(t)
+			if idx < 0 {
+				return false
+			}
+			if len(stack) > 0 {
+				c := stack[len(stack)-1]
+				if args := c.Common().Args; c.Common().StaticCallee() == t.Parent() && idx < len(args) {
+					return walk(args[idx], stack[:len(stack)-1], up)
+				}
+				return false
+			}
+			if up >= maxCallDepth {
+				return false
+			}
+			for _, c := range callSitesOf(t.Parent()) {
+				if args := c.Common().Args; idx < len(args) {
+					if walk(args[idx], nil, up+1) {
+						return true
+					}
+				}
+			}
+		case *ssa.Call, *ssa.Extract:
+			// the result of a module helper IS one of the values it returns
+			if c, h, idx := moduleCallee(x); h != nil && len(stack) < maxCallDepth {
+				for _, b := range h.Blocks {
+					if ret, ok := b.Instrs[len(b.Instrs)-1].(*ssa.Return); ok && idx < len(ret.Results) {
+						if walk(ret.Results[idx], append(append([]ssa.CallInstruction{}, stack...), c), up) {
+							return true
+						}
+					}
+				}
 			}
 		}
 		return false
 	}
-	return walk(v)
+	return walk(v, nil, 0)
 }
 
 // capturedStores: every value stored directly into local al, in its function and in the
@@ -348,6 +394,15 @@ func incrementsOf(a ssa.Value) []*ssa.BinOp {
 			walk(t.X)
 		case *ssa.ChangeType:
 			walk(t.X)
+		case *ssa.Call, *ssa.Extract:
+			// a counter computed by a module helper: the increments are the helper's
+			if _, h, idx := moduleCallee(x); h != nil {
+				for _, b := range h.Blocks {
+					if ret, ok := b.Instrs[len(b.Instrs)-1].(*ssa.Return); ok && idx < len(ret.Results) {
+						walk(ret.Results[idx])
+					}
+				}
+			}
 		}
 	}
 	walk(a)
@@ -357,6 +412,7 @@ func incrementsOf(a ssa.Value) []*ssa.BinOp {
 // loopSource: what does the innermost loop containing block b iterate over?
 // Returns the ranged-over value (map/slice/string) or nil.
 func loopSource(fn *ssa.Function, b *ssa.BasicBlock) (ssa.Value, *loopInfo) {
+	fn = b.Parent() // the block may belong to a helper the value was traced into
 	lp := innermostLoop(naturalLoops(fn), b)
 	if lp == nil {
 		return nil, nil
